@@ -218,6 +218,9 @@ class _Gen:
                 var = LOOPVARS[0]
             if not o["clean"] and o["for_tuple"] and r.chance(0.3):
                 self.emit(ind, "for %s, %s in I(%d, 2):" % (var, r.choice(LOCALS), self.sid()))
+            elif o["boolop"] and r.chance(0.08):
+                # and/or as the whole iterable expression
+                self.emit(ind, "for %s in I(%d) %s I(%d):" % (var, self.sid(), r.choice(["or", "and"]), self.sid()))
             else:
                 self.emit(ind, "for %s in I(%d):" % (var, self.sid()))
             pushed = var in LOOPVARS
